@@ -16,10 +16,11 @@ warnings.filterwarnings("ignore", category=SyntaxWarning)
 # a radius error of 1e-5 A on radii of 1..8 A changes N_0 = sqrt(4 pi) <r> by <= ~5e-6 relative.  1e-4 leaves a factor 20.
 TOL_EXACT = 1e-4
 # rotation: the statement allows "a discretisation error that shrinks as the maximum degree grows" but gives no number.  The caps
-# below are engineering thresholds (NOT derived from the statement): >= 4x the largest error seen on the unchanged tree over the
-# thorough domain (promolecule: 8e-3 / 4e-3 / 1e-3, Hirshfeld surfaces with kinks: 2.1e-2 / 1.2e-2 / 6e-3 for l_max 4 / 8 / 12);
-# a broken pipeline (wrong origin, wrong grid layout, unexpanded coefficients) moves the vector by 0.1 .. 1.
-ROT_CAP = {4: 0.10, 8: 0.06, 12: 0.03}
+# below are engineering thresholds (NOT derived from the statement): ~3-4x the largest normalised error (desc_err) seen on the
+# unchanged tree over the thorough domain (promolecule surfaces: 6.9e-3 / 1.1e-3 / 2.2e-4, Hirshfeld surfaces, which have creases:
+# 5.1e-2 / 7.2e-3 / 3.2e-3 for l_max 4 / 8 / 12); a broken pipeline (wrong origin, wrong grid layout, unexpanded coefficients)
+# moves the vector by 0.1 .. 3 in the same measure.
+ROT_CAP = {4: 0.15, 8: 0.025, 12: 0.012}
 
 
 def rotation_matrix(rng):
@@ -138,6 +139,7 @@ class Trace:
         self.expand = None         # (l_max, coeffs_in, out)
         self.mkinv = None          # (l_max, coeffs, kinds, out)
         self.sample_points = []    # arrays handed to the property function
+        self.prop_owner = None     # object whose d_norm / electrostatic_potential was evaluated
         self.prop_values = []
         self.ctor = None           # arguments of the density constructor
         self.error = None
@@ -190,6 +192,8 @@ def trace_descriptor(kind, sht, Zi, Pi, Ze=None, Pe=None, **kwargs):
         def f(self, pts):
             if not (top_only and depth["n"]):
                 tr.sample_points.append(np.array(pts))
+                if tr.prop_owner is None:
+                    tr.prop_owner = self
             depth["n"] += 1
             try:
                 out = real(self, pts)
@@ -247,12 +251,25 @@ def dataflow_clauses(kind, sht, tr, Zi, Pi, Ze=None, Pe=None, **kwargs):
     else:
         c = Pi.mean(axis=0)
         out["origin"] = (bool(np.allclose(o, c, atol=1e-5 * max(1.0, np.abs(c).max()))), {"origin_used": o.tolist(), "centroid_of_interior": c.tolist()})
+    h = tr.radii["handle"]
+    try:
+        if kind == "promolecule":
+            ok = bool(np.allclose(np.asarray(h.positions), Pi, atol=1e-5 * max(1.0, np.abs(Pi).max())))
+        else:
+            Pe_ = np.asarray(Pe, dtype=float)
+            ok = bool(np.asarray(h.dens_a.positions).shape == Pi.shape and np.allclose(np.asarray(h.dens_a.positions), Pi, atol=1e-5 * max(1.0, np.abs(Pi).max())) and
+                      np.asarray(h.dens_b.positions).shape == Pe_.shape and np.allclose(np.asarray(h.dens_b.positions), Pe_, atol=1e-5 * max(1.0, np.abs(Pe_).max())))
+        out["density_atoms"] = (ok, {})
+    except Exception as e:  # noqa
+        out["density_atoms"] = (False, repr(e))
     g = tr.radii["grid"].astype(float)
     gd = grid_directions(sht)
     out["grid_directions"] = (g.shape == gd.shape and bool(np.allclose(g, gd, atol=1e-6)), {"max_dev": float(np.abs(g - gd).max()) if g.shape == gd.shape else str(g.shape)})
     if "bounds" in kwargs:
         lo, hi = kwargs["bounds"]
         out["bounds"] = (bool(np.isclose(tr.radii["l"], lo, rtol=1e-6) and np.isclose(tr.radii["u"], hi, rtol=1e-6)), {"l": float(tr.radii["l"]), "u": float(tr.radii["u"])})
+    else:
+        out["bounds"] = (bool(0 < tr.radii["l"] < tr.radii["u"]), {"l": float(tr.radii["l"]), "u": float(tr.radii["u"])})
     if "isovalue" in kwargs:
         out["isovalue"] = (bool(np.isclose(tr.radii["isovalue"], kwargs["isovalue"], rtol=1e-6)), {"isovalue": float(tr.radii["isovalue"])})
     r = tr.radii["result"]
@@ -273,6 +290,14 @@ def dataflow_clauses(kind, sht, tr, Zi, Pi, Ze=None, Pe=None, **kwargs):
             ok = pts.shape == expected.shape and bool(np.allclose(pts, expected, atol=1e-4))
             out["property_sampled_on_surface"] = (ok, {"max_distance_from_surface_point": float(np.linalg.norm(pts - expected, axis=1).max()) if pts.shape == expected.shape else str(pts.shape),
                                                        "origin_used_for_radii": o.tolist()})
+        ow = tr.prop_owner
+        if prop in ("d_norm", "esp"):
+            try:
+                pos = np.asarray(ow.positions if (prop == "esp" or kind == "promolecule") else ow.dens_a.positions, dtype=float)
+                okp = pos.shape == Pi.shape and bool(np.allclose(pos, Pi, atol=1e-5 * max(1.0, np.abs(Pi).max())))
+                out["property_of_interior"] = (okp, {"atoms_of_property_object": int(pos.shape[0]), "interior_atoms": int(Pi.shape[0])})
+            except Exception as e:  # noqa
+                out["property_of_interior"] = (False, repr(e))
         out["property_in_imaginary_channel"] = (vin is not None and np.iscomplexobj(vin), {"complex_input": bool(vin is not None and np.iscomplexobj(vin))})
     # coefficients handed to the invariants: the full (L+1)^2 layout of the analysed function
     from chmpy.shape._sht import expand_coeffs_to_full
@@ -297,19 +322,22 @@ def dataflow_clauses(kind, sht, tr, Zi, Pi, Ze=None, Pe=None, **kwargs):
 # ---------------------------------------------------------------------------------------------------------------------------------
 # bounded stand-ins
 # ---------------------------------------------------------------------------------------------------------------------------------
-def _descr(kind, sht, s, prop=None, R=None, t=None, perm_i=None, perm_e=None, crystal_style=False):
+def _descr(kind, sht, s, prop=None, R=None, t=None, perm_i=None, perm_e=None):
     from chmpy.shape import promolecule_density_descriptor, stockholder_weight_descriptor
     Zi, Pi = s["Zi"], s["Pi"]
     Ze, Pe = s.get("Ze"), s.get("Pe")
     if R is not None:
         Pi = Pi @ R.T + t
         Pe = None if Pe is None else Pe @ R.T + t
+    probe = Pi[0].copy()              # the atom that is first in the ORIGINAL order, in the moved frame
     if perm_i is not None:
         Zi, Pi = Zi[perm_i], Pi[perm_i]
     if perm_e is not None and Pe is not None:
         Ze, Pe = Ze[perm_e], Pe[perm_e]
     kw = {}
-    if prop is not None:
+    if prop == "callable":
+        kw["with_property"] = lambda pts: np.linalg.norm(pts - probe, axis=1)     # a property that moves with the molecule, O(1) A in size
+    elif prop is not None:
         kw["with_property"] = prop
     if kind == "promolecule":
         return promolecule_density_descriptor(sht, Zi, Pi, **kw)
@@ -325,37 +353,84 @@ def _descr(kind, sht, s, prop=None, R=None, t=None, perm_i=None, perm_e=None, cr
 
 
 def relerr(a, b):
+    a, b = np.asarray(a, dtype=float), np.asarray(b, dtype=float)
     if a.shape != b.shape or not (np.all(np.isfinite(a)) and np.all(np.isfinite(b))):
         return float("inf")
     return float(np.abs(a - b).max() / max(1e-12, np.abs(a).max()))
 
 
+def desc_err(a, b, L):
+    """Distance between two 'NP' descriptor vectors of degree L, normalised so that a relative perturbation tau of the harmonic
+    coefficients gives a value of about tau in EVERY entry:
+      N entries (the first L+1, linear in the coefficients):   |dN| / S,            S   = max N
+      P entries (cube roots of cubic forms in the coefficients of degree >= 1; the kernel returns cbrt|P_raw|, which is not Lipschitz
+      at 0, so entries that vanish by symmetry turn rounding noise 1e-8 into 2e-3): compared BEFORE the cube root,
+                                                              |d(P^3)| / (3 S_P^2 S),  S_P = max(N_1.., 1e-3 S)
+    (first-order propagation: d(P_raw) <= 3 |c|^2 dc with |c| <= S_P, dc <= tau S)."""
+    a, b = np.asarray(a, dtype=float), np.asarray(b, dtype=float)
+    if a.shape != b.shape or a.ndim != 1 or len(a) < L + 1 or not (np.all(np.isfinite(a)) and np.all(np.isfinite(b))):
+        return float("inf")
+    S = max(1e-12, float(np.abs(a[: L + 1]).max()))
+    e = float(np.abs(a[: L + 1] - b[: L + 1]).max()) / S
+    if len(a) > L + 1:
+        SP = max(float(np.abs(a[1: L + 1]).max()) if L >= 1 else 0.0, 1e-3 * S)
+        e = max(e, float(np.abs(a[L + 1:] ** 3 - b[L + 1:] ** 3).max()) / (3 * SP * SP * S))
+    return e
+
+
+@contextlib.contextmanager
+def quiet_stderr():
+    """The compiled kernel prints 'ZeroDivisionError ... ignored' (0/0 weight far from every atom, see C05) straight to fd 2."""
+    import os
+    import sys
+    sys.stderr.flush()
+    saved = os.dup(2)
+    null = os.open(os.devnull, os.O_WRONLY)
+    os.dup2(null, 2)
+    try:
+        yield
+    finally:
+        sys.stderr.flush()
+        os.dup2(saved, 2)
+        os.close(null)
+        os.close(saved)
+
+
+def _add_fail(fails, f, cap=4):
+    if len(fails) < cap and not any(x["key"] == f["key"] for x in fails):
+        fails.append(f)
+
+
 def bounded_pose(kind, seed, tier):
-    """Metamorphic run-time contract: descriptor(system) == descriptor(moved / reordered system)."""
+    """Metamorphic run-time contract: descriptor(system) == descriptor(moved / reordered system).
+
+    Failure keys: '<kind>:shape' (no property channel), '<kind>:property_channel' (d_norm / esp / callable), '<kind>:monotone:<channel>'."""
     from chmpy.shape import SHT
     rng = np.random.default_rng(seed + (17 if kind == "promolecule" else 29))
     iso, part = systems(seed, tier)
     syss = iso if kind == "promolecule" else part
     nrot = 3 if tier == "quick" else 10
     nperm = 2 if tier == "quick" else 3
-    channels = [None, "d_norm", "esp"]
+    channels = [None, "d_norm", "esp", "callable"]
     fails, evals, distinct = [], 0, set()
     mean_rot = {}
     worst_rot = {}
-    errors = 0
     for L in (4, 8, 12):
         sht = SHT(L)
         for si, s in enumerate(syss):
             for prop in channels:
                 if prop == "esp" and (len(s["Zi"]) < 2 or (tier == "quick" and si % 2)):
                     continue          # EEM charges of a single atom are zero: no channel
+                if prop == "callable" and tier == "quick" and si % 2 == 0:
+                    continue
+                key = f"{kind}:{'shape' if prop is None else 'property_channel'}"
+                base_in = {"system": s["name"], "Zi": s["Zi"].tolist(), "Pi": s["Pi"].tolist(), "Ze": None if s.get("Ze") is None else s["Ze"].tolist(),
+                           "Pe": None if s.get("Pe") is None else s["Pe"].tolist(), "l_max": L, "with_property": prop, "seed": seed}
                 try:
                     d0 = _descr(kind, sht, s, prop)
                 except ValueError as e:
-                    errors += 1
-                    if len(fails) < 3:
-                        fails.append({"input": {"system": s["name"], "Zi": s["Zi"].tolist(), "Pi": s["Pi"].tolist(), "l_max": L, "with_property": prop, "seed": seed},
-                                      "observed": f"reference pose raised {e!r}", "clause": "the surface of a small molecule is found inside the default search bounds", "key": f"{kind}:reference_error"})
+                    evals += 1
+                    _add_fail(fails, {"input": base_in, "observed": f"reference pose raised {e!r}", "clause": "the surface of a small compact system is found inside the search bounds", "key": key})
                     continue
                 motions = []
                 for _ in range(nrot):
@@ -368,22 +443,20 @@ def bounded_pose(kind, seed, tier):
                     distinct.add((L, s["name"], prop, mk, None if R is None else round(float(R[0, 0]), 9), None if t is None else round(float(t[0]), 9), None if p_i is None else tuple(p_i)))
                     try:
                         d1 = _descr(kind, sht, s, prop, R, t, p_i, p_e)
-                        e = relerr(d0, d1)
-                        obs = {"max_abs_change_over_max_abs": e, "n_invariants": int(len(d0))}
+                        e = desc_err(d0, d1, L)
+                        obs = {"normalised_change": e, "n_invariants": int(len(d0))}
                     except ValueError as ex:
                         e, obs = float("inf"), {"raised_in_moved_pose": repr(ex)}
                     cap = ROT_CAP[L] if mk == "rigid" else TOL_EXACT
                     if mk == "rigid" and np.isfinite(e):
                         mean_rot.setdefault((L, prop), []).append(e)
                         worst_rot[(L, prop)] = max(worst_rot.get((L, prop), 0.0), e)
-                    if not e <= cap and len(fails) < 3:
-                        fails.append({"input": {"system": s["name"], "Zi": s["Zi"].tolist(), "Pi": s["Pi"].tolist(), "Ze": None if s.get("Ze") is None else s["Ze"].tolist(),
-                                                "Pe": None if s.get("Pe") is None else s["Pe"].tolist(), "l_max": L, "with_property": prop, "motion": mk,
-                                                "rotation": None if R is None else R.tolist(), "translation": None if t is None else t.tolist(),
-                                                "permutation": None if p_i is None else p_i.tolist(), "seed": seed},
-                                      "observed": dict(obs, allowed=cap),
-                                      "clause": f"descriptor unchanged under {mk} of the whole system ({'exact up to float32/xtol noise' if mk != 'rigid' else 'up to the discretisation error cap'})",
-                                      "key": f"{kind}:{prop or 'shape'}:{mk}"})
+                    if not e <= cap:
+                        _add_fail(fails, {"input": dict(base_in, motion=mk, rotation=None if R is None else R.tolist(), translation=None if t is None else t.tolist(),
+                                                        permutation=None if p_i is None else p_i.tolist()),
+                                          "observed": dict(obs, allowed=cap),
+                                          "clause": f"descriptor unchanged under {mk} of the whole system ({'exact up to float32/xtol noise' if mk != 'rigid' else 'up to the discretisation error cap'})",
+                                          "key": key})
     # the discretisation error shrinks as the maximum degree grows (aggregate over the domain, per channel)
     summary = {}
     for prop in channels:
@@ -394,11 +467,165 @@ def bounded_pose(kind, seed, tier):
         summary[str(prop)] = {"mean_err_l4": ma, "mean_err_l8": float(np.mean(mean_rot[(8, prop)])), "mean_err_l12": mb,
                               "worst": {str(L): worst_rot.get((L, prop)) for L in (4, 8, 12)}}
         evals += 1
-        if not mb <= ma and len(fails) < 3:
-            fails.append({"input": {"channel": prop, "systems": [s["name"] for s in syss], "seed": seed}, "observed": summary[str(prop)],
-                          "clause": "mean rotation error at l_max = 12 does not exceed the mean error at l_max = 4 (discretisation error shrinks as the degree grows)",
-                          "key": f"{kind}:{prop or 'shape'}:monotone"})
+        if not mb <= ma:
+            _add_fail(fails, {"input": {"channel": prop, "systems": [s["name"] for s in syss], "seed": seed}, "observed": summary[str(prop)],
+                              "clause": "mean rotation error at l_max = 12 does not exceed the mean error at l_max = 4 (discretisation error shrinks as the degree grows)",
+                              "key": f"{kind}:{'shape' if prop is None else 'property_channel'}"})
     return {"evaluations": evals, "distinct": len(distinct), "failures": fails, "summary": summary, "systems": [s["name"] for s in syss], "nrot": nrot, "nperm": nperm}
+
+
+def bounded_entry_points(seed, tier):
+    """Molecule / Crystal entry points: agreement with the function-level descriptor on the spec'd arguments (origin = centroid of the
+    interior, bounds from pose-independent quantities, the ATOM'S element), invariance under rigid motion and atom order."""
+    from chmpy import Molecule
+    from chmpy.core.element import Element
+    from chmpy.shape import SHT, promolecule_density_descriptor, stockholder_weight_descriptor
+    rng = np.random.default_rng(seed + 333)
+    iso, _ = systems(seed, "quick")
+    fails, evals, distinct = [], 0, set()
+    L = 4
+
+    def mol_of(Z, P):
+        return Molecule.from_arrays(Z, P)
+    for s in iso[: 4 if tier == "quick" else 8]:
+        Z, P = s["Zi"], s["Pi"]
+        # --- Molecule.shape_descriptors: same as the function on (atomic numbers, positions); pose independent
+        for kw in ({}, {"with_property": "d_norm"}):
+            evals += 1
+            distinct.add((s["name"], "mol.shape", str(kw)))
+            key = "Molecule.shape_descriptors" + (":property_channel" if kw else "")
+            a = mol_of(Z, P).shape_descriptors(l_max=L, **kw)
+            b = promolecule_density_descriptor(SHT(L), Z, P, **kw)
+            if relerr(a, b) > 1e-9:
+                _add_fail(fails, {"input": {"system": s["name"], "Zi": Z.tolist(), "Pi": P.tolist(), "kwargs": kw}, "observed": {"relerr": relerr(a, b)},
+                                  "clause": "Molecule.shape_descriptors == promolecule_density_descriptor(SHT(l_max), atomic numbers, positions, **kwargs)", "key": key})
+            R, t = rotation_matrix(rng), rng.uniform(-5, 5, size=3)
+            perm = rng.permutation(len(Z))
+            c = mol_of(Z[perm], (P @ R.T + t)[perm]).shape_descriptors(l_max=L, **kw)
+            evals += 1
+            if not desc_err(a, c, L) <= ROT_CAP[L]:
+                _add_fail(fails, {"input": {"system": s["name"], "Zi": Z.tolist(), "Pi": P.tolist(), "kwargs": kw, "rotation": R.tolist(), "translation": t.tolist(), "permutation": perm.tolist()},
+                                  "observed": {"normalised_change": desc_err(a, c, L), "allowed": ROT_CAP[L]}, "clause": "Molecule.shape_descriptors unchanged when the molecule is moved and its atoms reordered", "key": key})
+        # --- Molecule.atomic_shape_descriptors: row n describes atom n with the search bound of ITS element; rows follow the atom order
+        if len(Z) < 2:
+            continue
+        evals += 1
+        distinct.add((s["name"], "mol.atomic"))
+        key = "Molecule.atomic_shape_descriptors"
+        inp = {"system": s["name"], "Zi": Z.tolist(), "Pi": P.tolist(), "l_max": L}
+
+        def spec_rows(Z, P):
+            rows = []
+            D = np.linalg.norm(P[:, None, :] - P[None, :, :], axis=2)
+            for n in range(len(Z)):
+                idx = np.where((D[n] < 6.0) & (D[n] > 1e-3))[0]
+                rows.append(stockholder_weight_descriptor(SHT(L), Z[n:n + 1], P[n:n + 1], Z[idx], P[idx], bounds=(0.2, Element.from_atomic_number(int(Z[n])).vdw_radius * 3), background=1e-5))
+            return np.asarray(rows)
+        try:
+            want = spec_rows(Z, P)
+        except ValueError:
+            continue           # the spec'd bound itself does not bracket the surface for this system: outside the domain
+        try:
+            got = mol_of(Z, P).atomic_shape_descriptors(l_max=L)
+        except Exception as e:  # noqa
+            _add_fail(fails, {"input": inp, "observed": {"raised": repr(e)}, "clause": "Molecule.atomic_shape_descriptors describes every atom of a small molecule (bounds (0.2, 3 x vdW radius of the atom's element))",
+                              "key": key})
+            continue
+        if not relerr(want, got) <= 1e-9:
+            _add_fail(fails, {"input": inp, "observed": {"relerr_vs_spec": relerr(want, got), "rows_differing": [int(n) for n in range(len(Z)) if relerr(want[n], got[n]) > 1e-9]},
+                              "clause": "row n of Molecule.atomic_shape_descriptors is the descriptor of atom n searched up to 3 x the vdW radius of atom n's element", "key": key})
+        perm = rng.permutation(len(Z))
+        evals += 1
+        try:
+            gp = mol_of(Z[perm], P[perm]).atomic_shape_descriptors(l_max=L)
+            e = max(desc_err(x, y, L) for x, y in zip(got[perm], gp)) if got.shape == gp.shape else float("inf")
+            obs = {"normalised_change_rows_after_reordering": e}
+        except Exception as ex:  # noqa
+            e, obs = float("inf"), {"raised": repr(ex)}
+        if not e <= TOL_EXACT:
+            _add_fail(fails, {"input": dict(inp, permutation=perm.tolist()), "observed": obs, "clause": "reordering the atoms only reorders the rows of Molecule.atomic_shape_descriptors", "key": key})
+    # --- crystals
+    for cname in (("acetic_acid.cif",) if tier == "quick" else ("acetic_acid.cif", "iceII.cif")):
+        c = crystal(cname)
+        for prop in (None, "d_norm"):
+            evals += 1
+            distinct.add((cname, "molecular", prop))
+            got = c.molecular_shape_descriptors(l_max=L, radius=3.8, with_property=prop)
+            want = []
+            for mol, ne, npos in c.molecule_environments(radius=3.8):
+                cen = np.mean(mol.positions, axis=0)
+                d = np.linalg.norm(mol.positions - cen, axis=1)
+                tr = trace_descriptor("stockholder", SHT(L), mol.atomic_numbers, mol.positions, ne, npos, origin=cen.astype(np.float32), bounds=(d.min() / 2, d.max() + 10.0), with_property=prop)
+                want.append(tr.result)
+                one = c.molecule_shape_descriptors(mol, l_max=L, radius=3.8, with_property=prop)
+                evals += 1
+                if not relerr(np.asarray(tr.result), np.asarray(one)) <= 1e-6:
+                    _add_fail(fails, {"input": {"crystal": cname, "with_property": prop}, "observed": {"relerr": relerr(np.asarray(tr.result), np.asarray(one))},
+                                      "clause": "Crystal.molecule_shape_descriptors(mol) == stockholder descriptor of mol in its environment about its centroid", "key": "Crystal.molecule_shape_descriptors"})
+            if not relerr(np.asarray(want), got) <= 1e-6:
+                _add_fail(fails, {"input": {"crystal": cname, "with_property": prop}, "observed": {"relerr": relerr(np.asarray(want), got)},
+                                  "clause": "Crystal.molecular_shape_descriptors rows == stockholder descriptor of each unique molecule in its environment about its centroid", "key": "Crystal.molecular_shape_descriptors"})
+        # atoms: bound from the atom's element, rows follow the asymmetric unit; reordering the asymmetric unit reorders the rows
+        evals += 1
+        distinct.add((cname, "atomic"))
+        got = c.atomic_shape_descriptors(l_max=L, radius=3.8)
+        want = []
+        for sr in c.atomic_surroundings(radius=3.8):
+            zc = int(sr["centre"]["element"])
+            want.append(stockholder_weight_descriptor(SHT(L), [zc], [sr["centre"]["cart_pos"]], sr["neighbours"]["element"], sr["neighbours"]["cart_pos"],
+                                                      bounds=(0.15, Element.from_atomic_number(zc).vdw_radius * 3 + 2.0)))
+        if not relerr(np.asarray(want), got) <= 1e-9:
+            _add_fail(fails, {"input": {"crystal": cname}, "observed": {"relerr": relerr(np.asarray(want), got)},
+                              "clause": "Crystal.atomic_shape_descriptors row k describes asymmetric-unit atom k searched up to 3 x vdW(its element) + 2", "key": "Crystal.atomic_shape_descriptors"})
+        evals += 1
+        cf, dd = c.atomic_shape_descriptors(l_max=L, radius=3.8, return_coefficients=True)
+        if not (relerr(got, dd) <= 1e-9 and np.iscomplexobj(cf) and cf.shape[0] == got.shape[0] and cf.shape[1] == (L + 1) * (L + 2) // 2):
+            _add_fail(fails, {"input": {"crystal": cname, "return_coefficients": True}, "observed": {"coefficient_array": [str(cf.dtype), list(cf.shape)], "descriptor_array": [str(dd.dtype), list(dd.shape)]},
+                              "clause": "with return_coefficients=True Crystal.atomic_shape_descriptors returns (transform coefficients, the same invariants)", "key": "Crystal.atomic_shape_descriptors"})
+        evals += 1
+        cf, dd = c.molecular_shape_descriptors(l_max=L, radius=3.8, return_coefficients=True)
+        if not (relerr(c.molecular_shape_descriptors(l_max=L, radius=3.8), dd) <= 1e-9 and np.iscomplexobj(cf) and cf.shape[1] == (L + 1) * (L + 2) // 2):
+            _add_fail(fails, {"input": {"crystal": cname, "return_coefficients": True}, "observed": {"coefficient_array": [str(cf.dtype), list(cf.shape)], "descriptor_array": [str(dd.dtype), list(dd.shape)]},
+                              "clause": "with return_coefficients=True Crystal.molecular_shape_descriptors returns (transform coefficients, the same invariants)", "key": "Crystal.molecular_shape_descriptors"})
+        from chmpy.crystal import Crystal, AsymmetricUnit
+        asym = c.asymmetric_unit
+        perm = rng.permutation(len(asym.elements))
+        c2 = Crystal(c.unit_cell, c.space_group, AsymmetricUnit([asym.elements[k] for k in perm], asym.positions[perm], labels=np.asarray(asym.labels)[perm]))
+        evals += 1
+        gp = c2.atomic_shape_descriptors(l_max=L, radius=3.8)
+        if not (got.shape == gp.shape and max(desc_err(x, y, L) for x, y in zip(got[perm], gp)) <= TOL_EXACT):
+            _add_fail(fails, {"input": {"crystal": cname, "asymmetric_unit_permutation": perm.tolist()}, "observed": {"relerr": relerr(got[perm], gp)},
+                              "clause": "listing the asymmetric unit in a different order only reorders the rows of Crystal.atomic_shape_descriptors", "key": "Crystal.atomic_shape_descriptors"})
+        evals += 1
+        m1, m2 = c.molecular_shape_descriptors(l_max=L, radius=3.8), c2.molecular_shape_descriptors(l_max=L, radius=3.8)
+        ok = m1.shape == m2.shape and all(min(desc_err(r1, r2, L) for r2 in m2) <= ROT_CAP[L] for r1 in m1)
+        if not ok:
+            _add_fail(fails, {"input": {"crystal": cname, "asymmetric_unit_permutation": perm.tolist()}, "observed": {"shapes": [list(m1.shape), list(m2.shape)]},
+                              "clause": "listing the asymmetric unit in a different order leaves the set of molecular descriptors unchanged (a different symmetry image may be described: discretisation cap)",
+                              "key": "Crystal.molecular_shape_descriptors"})
+        # atom group
+        evals += 1
+        ag = c.atom_group_shape_descriptors([0, 1, 2], l_max=L, radius=3.8)
+        inside, outside = c.atom_group_surroundings([0, 1, 2], radius=3.8)
+        cen = np.mean(inside[1], axis=0)
+        d = np.linalg.norm(inside[1] - cen, axis=1)
+        wg = stockholder_weight_descriptor(SHT(L), *inside, *outside, origin=cen.astype(np.float32), bounds=(d.min() / 2, d.max() + 10.0))
+        if not relerr(np.asarray(wg), ag) <= 1e-6:
+            _add_fail(fails, {"input": {"crystal": cname, "atoms": [0, 1, 2]}, "observed": {"relerr": relerr(np.asarray(wg), ag)},
+                              "clause": "Crystal.atom_group_shape_descriptors == stockholder descriptor of the group in its environment about the group's centroid", "key": "Crystal.atom_group_shape_descriptors"})
+    return {"evaluations": evals, "distinct": len(distinct), "failures": fails}
+
+
+def partial_bounds(kind, sht, s):
+    """A search interval that brackets the surface along SOME grid directions only (None for a perfectly round surface)."""
+    tr = trace_descriptor(kind, sht, s["Zi"], s["Pi"], s.get("Ze"), s.get("Pe"), bounds=(0.05, 25.0))
+    if tr.radii is None:
+        return None
+    r = tr.radii["result"]
+    r = r[r > 0]
+    if len(r) < 2 or r.max() - r.min() < 1e-2:
+        return None
+    return (0.05, float(0.5 * (r.min() + r.max())))
 
 
 def bounded_dataflow(seed, tier):
@@ -416,16 +643,20 @@ def bounded_dataflow(seed, tier):
                 user = lambda pts: np.linalg.norm(pts - 0.3, axis=1)
                 for kw in ({}, {"with_property": "d_norm"}, {"with_property": "esp"}, {"with_property": user, "coefficients": True},
                            {"origin": (np.mean(s["Pi"], axis=0) + rng.normal(scale=0.05, size=3)).astype(np.float32), "bounds": (0.3, 15.0), "with_property": "d_norm"},
-                           {"bounds": (0.05, 0.5)}, {"bounds": (9.0, 15.0)}):
+                           {"bounds": (0.05, 0.5)}, {"bounds": (9.0, 15.0)}, {"bounds": "partial"}):
                     if kw.get("with_property") == "esp" and len(s["Zi"]) < 2:
                         continue
+                    if kw.get("bounds") == "partial":
+                        kw = dict(kw, bounds=partial_bounds(kind, sht, s))
+                        if kw["bounds"] is None:
+                            continue
                     tr = trace_descriptor(kind, sht, s["Zi"], s["Pi"], s.get("Ze"), s.get("Pe"), **kw)
                     cl = dataflow_clauses(kind, sht, tr, s["Zi"], s["Pi"], s.get("Ze"), s.get("Pe"), **kw)
                     for name, (ok, obs) in cl.items():
                         evals += 1
                         distinct.add((L, s["name"], kind, name, str(sorted(k for k in kw))))
-                        if not ok and len(fails) < 3 and not any(f["key"] == f"{kind}:{name}" for f in fails):
-                            fails.append({"input": {"function": kind, "system": s["name"], "Zi": s["Zi"].tolist(), "Pi": s["Pi"].tolist(), "l_max": L,
+                        if not ok:
+                            _add_fail(fails, {"input": {"function": kind, "system": s["name"], "Zi": s["Zi"].tolist(), "Pi": s["Pi"].tolist(), "l_max": L,
                                                     "kwargs": {k: (v if isinstance(v, str) else (np.asarray(v).tolist() if not callable(v) else "callable")) for k, v in kw.items()}, "seed": seed},
                                           "observed": obs, "clause": f"dataflow clause `{name}` observed on the running code", "key": f"{kind}:{name}"})
     return {"evaluations": evals, "distinct": len(distinct), "failures": fails}
@@ -434,14 +665,13 @@ def bounded_dataflow(seed, tier):
 def bounded_roots(seed, tier):
     """The compiled root finders against the isovalue equation: residual of the returned radius, agreement with an independent
     bracketing solve of the batch density/weight along the ray, and -1 exactly for unbracketed rays."""
-    from scipy.optimize import brentq
     from chmpy import PromoleculeDensity, StockholderWeight
     from chmpy.interpolate._density import sphere_promolecule_radii, sphere_stockholder_radii
     rng = np.random.default_rng(seed + 77)
     iso, part = systems(seed, "quick")
     fails, evals, distinct = [], 0, set()
     ndir = 40 if tier == "quick" else 200
-    stats = {"unbracketed": 0, "converged": 0, "outside_bounds": 0, "max_residual_rel": 0.0, "max_root_dev": 0.0}
+    stats = {"unbracketed": 0, "converged": 0, "outside_bounds": 0, "skipped_far_field": 0}
 
     def dirs(n):
         d = rng.normal(size=(n, 3))
@@ -451,6 +681,7 @@ def bounded_roots(seed, tier):
         if stock:
             obj = StockholderWeight.from_arrays(s["Zi"], s["Pi"], s["Ze"], s["Pe"])
             fun = lambda pts: obj.weights(np.asarray(pts, dtype=np.float32))
+            tot = lambda pts: obj.dens_a.rho(np.asarray(pts, dtype=np.float32)) + obj.dens_b.rho(np.asarray(pts, dtype=np.float32))
             handle, kern, iso_v, tol = obj.s, sphere_stockholder_radii, 0.5, 1e-7
         else:
             obj = PromoleculeDensity((s["Zi"], s["Pi"]))
@@ -458,16 +689,25 @@ def bounded_roots(seed, tier):
             handle, kern, iso_v, tol = obj.dens, sphere_promolecule_radii, 0.0002, 1e-12
         o = np.mean(s["Pi"], axis=0).astype(np.float32)
         ext = float(np.linalg.norm(s["Pi"] - o, axis=1).max())
-        for (lo, hi) in ((0.4, 20.0) if not stock else (max(0.05, 0.0), ext + 10.0), (0.05, 0.3), (ext + 9.0, ext + 12.0)):
+        first = (0.4, 20.0) if not stock else (0.05, ext + 4.0)
+        r_first = np.array(kern(handle, o, dirs(ndir), first[0], first[1], tol, 30, iso_v))
+        r_out = float(r_first[r_first > 0].max()) if np.any(r_first > 0) else ext + 2.0
+        # three search intervals: one that brackets the surface, one entirely inside it, one just outside it (kept near the atoms: beyond
+        # ~10.6 A from an atom the single-point and batch evaluation paths differ by the table's tail fill, see C05, so the batch values are
+        # no reference there)
+        for (lo, hi) in (first, (0.05, 0.3), (r_out + 0.5, r_out + 1.5)):
             g = dirs(ndir)
             r = np.array(kern(handle, o, g, lo, hi, tol, 30, iso_v))
             pl = fun(o[None, :] + lo * g) - iso_v
             pu = fun(o[None, :] + hi * g) - iso_v
             for k in range(ndir):
-                evals += 1
-                distinct.add((s["name"], lo, hi, k))
                 same = pl[k] * pu[k] > 0
                 margin = min(abs(pl[k]), abs(pu[k])) > 1e-3 * iso_v        # away from the float32 tie where batch and single-point paths may disagree
+                if stock and min(tot(o[None, :] + lo * g[k:k + 1])[0], tot(o[None, :] + hi * g[k:k + 1])[0]) < 1e-6:
+                    stats["skipped_far_field"] += 1
+                    continue
+                evals += 1
+                distinct.add((s["name"], lo, hi, k))
                 bad = None
                 if r[k] == -1.0:
                     stats["unbracketed"] += 1
@@ -490,7 +730,7 @@ def bounded_roots(seed, tier):
                             fm, fp = float(fun(o[None, :] + (r[k] - h) * g[k:k + 1])[0] - iso_v), float(fun(o[None, :] + (r[k] + h) * g[k:k + 1])[0] - iso_v)
                         if fm * fp > 0:
                             bad = ("no sign change of (value - isovalue) within 2e-3 A of the returned radius", {"radius": float(r[k]), "f_minus": fm, "f_plus": fp})
-                if bad and len(fails) < 3:
-                    fails.append({"input": {"system": s["name"], "Zi": s["Zi"].tolist(), "Pi": s["Pi"].tolist(), "stockholder": stock, "origin": o.tolist(), "direction": g[k].tolist(),
-                                            "bounds": [lo, hi], "isovalue": iso_v, "seed": seed}, "observed": bad[1], "clause": bad[0], "key": "roots:" + bad[0][:20]})
+                if bad:
+                    _add_fail(fails, {"input": {"system": s["name"], "Zi": s["Zi"].tolist(), "Pi": s["Pi"].tolist(), "stockholder": stock, "origin": o.tolist(), "direction": g[k].tolist(),
+                                                "bounds": [lo, hi], "isovalue": iso_v, "seed": seed}, "observed": bad[1], "clause": bad[0], "key": "roots:" + bad[0][:24]})
     return {"evaluations": evals, "distinct": len(distinct), "failures": fails, "stats": stats}
